@@ -17,7 +17,7 @@
    see notes/C10.md for what is still open. *)
 From Coq Require Import List ZArith.
 From RtoscV Require Import Pretty.Tok Pretty.FloatFmt Pretty.PrintModel Pretty.ScanModel
-  Pretty.PrettyProofs Pretty.RangeProofs Pretty.RunProofs Pretty.PrettyRegress.
+  Pretty.PrettyProofs Pretty.RangeProofs Pretty.RunProofs Pretty.ListProofs Pretty.PrettyRegress.
 Import ListNotations.
 Local Open Scope Z_scope.
 
@@ -78,6 +78,22 @@ Theorem C10_repetition_reads_partial : forall (dec2f dec2d : list Z -> Z) els T,
   count_printed_arg_vals dec2f dec2d T = Ok (true, total_slots els) /\
   scan_arg_vals dec2f dec2d T (total_slots els) = Ok (concat els, []).
 Proof. exact elements_agree. Qed.
+
+(* the text forms the printer uses with compression on - values, repetitions
+   "NxV", range tails "b ... c" (the explicit form "a b ... c" is the value a
+   followed by the tail from b) - in any sequence, separated by any white
+   space: both recognisers read them back and the scanned slots expand to the
+   original values.  iseq threads the original previous value: a tail is read
+   with the unit step unless that value is a same-typed neighbour (ctx_ok). *)
+Theorem C10_compressed_reads_partial : forall (dec2f dec2d : list Z -> Z) its T,
+  iseq dec2f dec2d None its T ->
+  count_printed_arg_vals dec2f dec2d T = Ok (true, Z.of_nat (length (islots its))) /\
+  scan_arg_vals dec2f dec2d T (Z.of_nat (length (islots its))) = Ok (islots its, []) /\
+  expand (islots its) = Some (iorig its).
+Proof.
+  exact (fun a b its T H => conj (proj1 (iseq_reads a b its T H))
+                                 (conj (proj2 (iseq_reads a b its T H)) (expand_items a b its None T H))).
+Qed.
 
 (* decimal integers: no open hypothesis about printf/sscanf *)
 Theorem C10_decimal_roundtrip : forall v rest,
